@@ -539,6 +539,24 @@ func c08NamespaceRewrite(c *Check, a *Anchors) {
 		return ""
 	})
 	f.Run()
+	// the excludes list names tasks as the included file declares them: the name tested is the key of the loop over the
+	// included tasks (a task that the included file got from an include of its own is `inner:name` there, and LocalName()
+	// of it is `name` — which would exclude it together with, or instead of, the file's own `name`)
+	pmMerge := parentMap(fb.Body)
+	for call, l := range f.Labels {
+		if l != "excluded" {
+			continue
+		}
+		tested := varOf(info, call.Args[1])
+		isKey := false
+		for p := pmMerge[ast.Node(call)]; p != nil; p = pmMerge[p] {
+			if r, ok := p.(*ast.RangeStmt); ok && r.Key != nil && tested != nil && varOf(info, r.Key) == tested {
+				isKey = true
+			}
+		}
+		c.Decide(isKey, "namespace-rewrite", "excludes-by-declared-name@"+name, call.Pos(), "the excludes list is matched against the key of the loop over the included tasks",
+			"the include's excludes list is matched against `"+exprStr(call.Args[1])+"`, not against the name the included Taskfile registers the task under (the key of the loop): a nested task `inner:build` is dropped by `excludes: [build]`, or the wrong task is kept")
+	}
 	nSet := 0
 	for call, l := range f.Labels {
 		if l != "set" {
@@ -781,7 +799,6 @@ func c08RootRef(c *Check, a *Anchors) {
 		"f(marked) = unmarked and f(unmarked) = namespace:unmarked: the root marker is stripped at the FIRST merge, so a ':foo' reference written two includes deep is namespaced by the outer include at the second merge and is bound to <outer namespace>:foo instead of the root Taskfile's foo")
 	_ = sort.Strings
 }
-
 
 // namespaceHelper resolves the namespacing helper by what it does: the (string, string) string function of taskfile/ast that
 // Tasks.Merge (or a function Merge hands the rewrite to) calls with Include.Namespace as one of its arguments.
